@@ -1,7 +1,7 @@
 CONSTANTS
   AlphaOf <- ShapeAlpha
   MaxLenOf <- ShapeLen
-  DelimSet <- AllDelims
+  DelimSet <- LineDelims
 INIT Init
 NEXT Next
 INVARIANTS InvPartition InvSelection EmitMenu EmitSel
